@@ -863,7 +863,8 @@ Error ARMRAPass::emit_swap(RAWorkReg* a_reg, uint32_t a_phys_id, RAWorkReg* b_re
 
 Error ARMRAPass::emit_load(RAWorkReg* w_reg, uint32_t dst_phys_id) noexcept {
   Reg dst_reg(w_reg->signature(), dst_phys_id);
-  BaseMem src_mem(work_reg_as_mem(w_reg));
+  BaseMem src_mem;
+  ASMJIT_PROPAGATE(work_reg_as_mem(Out(src_mem), w_reg));
 
   const char* comment = nullptr;
 
@@ -879,7 +880,8 @@ Error ARMRAPass::emit_load(RAWorkReg* w_reg, uint32_t dst_phys_id) noexcept {
 }
 
 Error ARMRAPass::emit_save(RAWorkReg* w_reg, uint32_t src_phys_id) noexcept {
-  BaseMem dst_mem(work_reg_as_mem(w_reg));
+  BaseMem dst_mem;
+  ASMJIT_PROPAGATE(work_reg_as_mem(Out(dst_mem), w_reg));
   Reg src_reg(w_reg->signature(), src_phys_id);
 
   const char* comment = nullptr;
